@@ -116,9 +116,9 @@ fn seq_order(kind: u8, fold: bool) {
 }
 macro_rules! seq_harness {
     ($name:ident, $kind:expr, $fold:expr) => {
-        // did not finish within 600 s / 14 GB: `Interpreter::exec` (iterator map + collect over a heap slice
-        // of instructions) is beyond CBMC here; no tier enables these, see DESIGN.md
-        #[cfg(feature = "verif_experimental")]
+        // round two: did not finish within 600 s / 14 GB (`Interpreter::exec` = iterator map + collect over a heap
+        // slice); re-tried in round three with the sequence model of DESIGN 0.3 (thorough tier)
+        #[cfg(feature = "verif_thorough")]
         #[kani::proof]
         #[kani::unwind(4)]
         #[kani::stub(alloc::fmt::format, crate::verif_common::stub_format)]
